@@ -1,9 +1,12 @@
 #!/bin/bash
-# usage: muttest.sh <patch> <PROP>...   applies a patch to /repo, runs the checks, restores /repo
-patch=$1; shift
-git -C /repo apply "$patch" || exit 2
+# usage: muttest.sh <patch> <PROP>...   runs the checks against a scratch copy of /repo's HEAD with the patch applied
+# (/repo itself is not touched, so other work going on there is not disturbed)
+patch=$(readlink -f "$1"); shift
+d=$(mktemp -d /tmp/mut.XXXXXX)
+git -C /repo worktree add -q --detach $d/repo HEAD || exit 2
+git -C $d/repo apply "$patch" || { git -C /repo worktree remove --force $d/repo; exit 2; }
 for p in "$@"; do
-  out=$(/verif/check $p 2>/dev/null | grep -c VIOLATION)
+  out=$(VERIF_REPO=$d/repo /verif/check $p 2>/dev/null | grep -c VIOLATION)
   echo "$(basename $patch) $p violations_lines=$out"
 done
-git -C /repo checkout -- .
+git -C /repo worktree remove --force $d/repo; rm -rf $d
